@@ -383,6 +383,8 @@ func (c *control) dirPercent(colon, at bool, params []any) {
 	n := 1
 	if 0 < len(params) {
 		switch tp := params[0].(type) {
+		case nil:
+			// omitted
 		case int:
 			n = tp
 		case slip.Integer:
@@ -400,6 +402,8 @@ func (c *control) dirAmp(colon, at bool, params []any) {
 	n := 1
 	if 0 < len(params) {
 		switch tp := params[0].(type) {
+		case nil:
+			// omitted
 		case int:
 			n = tp
 		case slip.Integer:
@@ -504,6 +508,8 @@ func (c *control) dirMove(colon, at bool, params []any) {
 	var changed bool
 	if 0 < len(params) {
 		switch tp := params[0].(type) {
+		case nil:
+			// omitted
 		case int:
 			n = tp
 			changed = true
@@ -1439,6 +1445,8 @@ func (c *control) dirTilde(colon, at bool, params []any) {
 	n := 1
 	if 0 < len(params) {
 		switch tp := params[0].(type) {
+		case nil:
+			// omitted
 		case int:
 			n = tp
 		case slip.Integer:
@@ -1688,6 +1696,8 @@ func (c *control) dirPage(colon, at bool, params []any) {
 	n := 1
 	if 0 < len(params) {
 		switch tp := params[0].(type) {
+		case nil:
+			// omitted
 		case int:
 			n = tp
 		case slip.Integer:
